@@ -916,7 +916,7 @@ func init() {
 	register(&CheckDef{
 		ID:    "C09",
 		Title: "The public API is free of data races, panics and deadlocks under concurrent use",
-		Reach: []string{"done"},
+		Reach: []string{"done", "adopted-merge"},
 		Jobs: func(tier string) []JobSpec {
 			var js []JobSpec
 			add := func(name string, params map[string]int64) {
@@ -947,6 +947,16 @@ func init() {
 					pp = pre - 1
 				}
 				add(fmt.Sprintf("older-file-%s+%s", callNames[pr[0]], callNames[pr[1]]), p("call0", pr[0], "call1", pr[1], "race", 1, "index", 3, "shards", 1, "preempt", pp, "dfs_lo", 20, "dfs_hi", 20))
+			}
+			// readers on files of an adopted merge (mmap and std): Get+Get, Get+Fold, Get+Merge
+			for _, pr := range [][2]int{{1, 1}, {1, 4}, {1, 9}} {
+				for io := 0; io <= 1; io++ {
+					pp := pre
+					if pr[1] == 9 {
+						pp = pre - 1
+					}
+					add(fmt.Sprintf("adopted-merge-io%d-%s+%s", io, callNames[pr[0]], callNames[pr[1]]), p("call0", pr[0], "call1", pr[1], "race", 1, "index", 3, "shards", 1, "preempt", pp, "dfs_lo", 20, "dfs_hi", 20, "adopted", 1, "io", io))
+				}
 			}
 			// three overlapping Merges: the one in progress, one that is rejected, one more
 			add("hashmap-Merge+Merge+Merge", p("call0", 9, "call1", 9, "call2", 10, "race", 1, "index", 3, "shards", 1, "preempt", 1, "dfs_lo", 100, "dfs_hi", 100))
